@@ -139,7 +139,10 @@ def op_new_node(w, a, b, c, d):
     g = None
     if d % 3 == 0:
         g = C(w, d >> 2)
-    n = ir.Node("" if c % 7 else "custom", OPTYPES[c % len(OPTYPES)], ins, num_outputs=1 + (c >> 3) % 3, name=name_from(w, c >> 5), graph=g)
+    nm = name_from(w, c >> 5)
+    w.last_new = None
+    n = ir.Node("" if c % 7 else "custom", OPTYPES[c % len(OPTYPES)], ins, num_outputs=1 + (c >> 3) % 3, name=nm, graph=g)
+    w.last_new = (n, nm)
     w.reg(n)
     for o in n.outputs:
         w.reg(o)
